@@ -5,6 +5,7 @@ import (
 	"log/slog"
 	"net/http"
 	"reservoir/utils/typeutils"
+	"strings"
 	"time"
 )
 
@@ -106,16 +107,21 @@ func ParseHeaderDirective(header http.Header) *HeaderDirectives {
 				slog.Debug("Error parsing Range header", "error", err, "value", value)
 			}
 		case "Cache-Control":
-			if cc, err := parseCacheControl(value); err == nil {
+			// Several Cache-Control lines are equivalent to one comma-separated list
+			if cc, err := parseCacheControl(strings.Join(values, ",")); err == nil {
 				hd.CacheControl.value = typeutils.Some(cc)
 			} else {
+				// Directives we cannot read must not make the response more cacheable than without them
 				slog.Debug("Error parsing Cache-Control header", "error", err, "value", value)
+				hd.CacheControl.value = typeutils.Some(cacheControl{noCache: true})
 			}
 		case "Expires":
 			if t, err := time.Parse(http.TimeFormat, value); err == nil {
 				hd.Expires.value = typeutils.Some(t)
 			} else {
+				// An invalid date, especially "0", means already expired (RFC 9111 section 5.3)
 				slog.Debug("Error parsing Expires header", "error", err, "value", value)
+				hd.Expires.value = typeutils.Some(time.Time{})
 			}
 		}
 	}
